@@ -420,6 +420,38 @@ static void conformability(int bound, unsigned long long& unit)
 							mc::violation("conformability", "conformability|" + shape(m1, n1) + "|" + ops[op] + "|" + shape(m2, n2) + "|" + (same ? "valid_request_did_not_return" : "non_conformable_not_rejected"), std::string("outcome: ") + o.name() + " " + o.out.substr(0, 200), "asan: " + cfg);
 					}
 				}
+	// products are defined exactly when the inner dimensions agree - whatever the right operand contains (an identity included)
+	const char* pops[] = {"Product(Matrix)", "operator*(Matrix)", "Product(identity)", "Product(Vector)", "operator*(Vector,Matrix)"};
+	for(int m1 = 1; m1 <= bound; m1++)
+		for(int n1 = 1; n1 <= bound; n1++)
+			for(int m2 = 1; m2 <= bound; m2++)
+				for(int n2 = 1; n2 <= std::min(bound, 3); n2++)
+				{
+					if(!mc::mine(unit++)) continue;
+					if(mc::out_of_time("C04 conformability")) return;
+					for(int op = 0; op < 5; op++)
+					{
+						if(op == 2 && m2 != n2) continue;			   // identity of size m2
+						if(op >= 3 && n2 != 1) continue;				   // vector of size m2 (op 3: A*v, op 4: v*A with v of size m2 and A m1 x n1)
+						bool valid = op == 4 ? (m2 == m1) : (n1 == m2);
+						auto o = mc::isolate([&](std::function<void(const std::string&)> out) {
+							Matrix A(make(m1, n1, 0, 0)), B(make(m2, n2, 1, 1));
+							std::string r;
+							if(op == 0) { Matrix R = A.Product(B); r = std::to_string(R.Rows()) + "x" + std::to_string(R.Columns()); }
+							else if(op == 1) { Matrix R = A * B; r = std::to_string(R.Rows()) + "x" + std::to_string(R.Columns()); }
+							else if(op == 2) { Matrix R = A.Product(Identity_Matrix(m2)); r = std::to_string(R.Rows()) + "x" + std::to_string(R.Columns()); }
+							else if(op == 3) { Vector v(m2, 0.5); Vector R = A.Product(v); r = std::to_string(R.Size()); }
+							else { Vector v(m2, 0.5); Vector R = v * A; r = std::to_string(R.Size()); }
+							out(r);
+						});
+						mc::count("conformability_requests", 1);
+						std::string cfg = shape(m1, n1) + " " + pops[op] + " " + shape(m2, n2);
+						if(valid ? o.kind != mc::Outcome::RETURNED : !o.diagnostic())
+							mc::violation("conformability", "conformability|" + shape(m1, n1) + "|" + pops[op] + "|" + shape(m2, n2) + "|" + (valid ? "valid_request_did_not_return" : "non_conformable_not_rejected"), std::string("outcome: ") + o.name() + " " + o.out.substr(0, 200), "asan: " + cfg);
+						else if(valid && op <= 2 && o.payload != std::to_string(m1) + "x" + std::to_string(op == 2 ? m2 : n2))
+							mc::violation("conformability", "conformability|" + shape(m1, n1) + "|" + pops[op] + "|" + shape(m2, n2) + "|product_shape_wrong", "shape of the product: " + o.payload, "asan: " + cfg);
+					}
+				}
 	const char* vops[] = {"operator+", "operator-", "operator+=", "operator-=", "Dot", "Cross"};
 	for(int d1 = 1; d1 <= bound + 1; d1++)
 		for(int d2 = 1; d2 <= bound + 1; d2++)
